@@ -629,6 +629,21 @@ func evalLoop(c *rig.Ctx, h Loop) loopVerdict {
 	return loopVerdict{inexact: inexact, hits: loopHits(h, impl[:n])}
 }
 
+// ownerClass: the loop observes the gateway side (C09) as well as the limiter server (C07). What belongs to the gateway side
+// is decided by ./check C09; here it is reported under class compose.c09.… , which ./check turns into a NOTE, never into a
+// C07 verdict (a change that only breaks C09 must not raise an alarm on C07).
+func ownerClass(v loopVerdict) string {
+	switch v.class {
+	case "c07.loop-remote-size", "c07.loop-exceeds-answer", "c07.loop-exceeds-own-limit", "c07.loop-remote-while-unreachable", "c07.loop-fallback-local":
+		return "compose.c09." + strings.TrimPrefix(v.class, "c07.loop-")
+	case "c07.loop":
+		if strings.Contains(v.what, ", gateways: model") {
+			return "compose.c09.loop-diff"
+		}
+	}
+	return v.class
+}
+
 // loopHits: which situations of the composition the history reached on the REAL code (for the histogram)
 func loopHits(h Loop, obs []LObs) map[string]bool {
 	hits := map[string]bool{}
@@ -775,7 +790,7 @@ func settle(c *rig.Ctx, h Loop, v loopVerdict, record bool) bool {
 		return true
 	}
 	if record {
-		c.Fail(rig.Failure{Kind: v.kind, Class: v.class, What: v.what, Case: h, Impl: v.impl, Model: v.model})
+		c.Fail(rig.Failure{Kind: v.kind, Class: ownerClass(v), What: v.what, Case: h, Impl: v.impl, Model: v.model})
 	}
 	return false
 }
@@ -984,8 +999,10 @@ func (g *loopGen) stepOnce() {
 		if r.Intn(5) != 0 {
 			g.emit(LOp{Op: "tick", Now: g.advance(rig.Pick(r, []int64{0, 100, 900}))})
 		}
-	case x < 70:
+	case x < 69:
 		g.emit(LOp{Op: "tick", Now: g.advance(rig.Pick(r, []int64{0, 1000, 3600, 7000}))})
+	case x < 70: // an upstream event for an upstream the lister does not have, or one delivered again
+		g.emit(LOp{Op: "handle", U: r.Intn(g.h.NUp + 1)})
 	case x < 74:
 		g.emit(LOp{Op: "unknown"})
 	case x < 80: // partition / heal
@@ -996,9 +1013,12 @@ func (g *loopGen) stepOnce() {
 	case x < 88: // a process (re)starts in the slot, with the old or a new identity, and syncs its schemas
 		gi := r.Intn(g.h.NGw)
 		id := g.r.gws[gi].id
-		if r.Intn(2) == 0 {
+		switch r.Intn(10) {
+		case 0, 1, 2, 3, 4:
 			id = g.nextID
 			g.nextID++
+		case 5: // (mis)configured with the identity of another gateway: two processes share one record
+			id = g.r.gws[r.Intn(g.h.NGw)].id
 		}
 		g.emit(LOp{Op: "ret", G: gi, ID: id})
 		for u := 0; u < g.h.NUp; u++ {
